@@ -246,3 +246,56 @@ pub fn contract(directed: bool, op: &EdgeOp, before: &Lists, after: &Lists, res:
         }
     }
 }
+
+/// C03 on histories with two live node OBJECTS of one key: `connect` (and an accepted `try_connect`) adds exactly one
+/// entry to the lists of the two objects it was called on - identified by their position in `lists`, not by key - and
+/// changes nothing else; a refused `try_connect` changes nothing. (`ui`, `vi` index `before`/`after`.)
+pub fn twin_connect_contract(directed: bool, before: &Lists, after: &Lists, ui: usize, vi: usize, e: u32, accepted: bool) -> Result<(), String> {
+    if before.len() != after.len() {
+        return Err("the set of nodes changed".into());
+    }
+    // `b` is `a` with one occurrence of each entry of `xs` deleted (equal entries cannot be told apart: any occurrence will do)
+    fn removable(a: &[Entry], b: &[Entry], xs: &[Entry]) -> bool {
+        match xs.split_first() {
+            None => a == b,
+            Some((x, rest)) => (0..a.len()).filter(|&p| a[p] == *x).any(|p| {
+                let mut v = a.to_vec();
+                v.remove(p);
+                removable(&v, b, rest)
+            }),
+        }
+    }
+    for (i, (b, a)) in before.iter().zip(after.iter()).enumerate() {
+        let (ku, kv) = (before[ui].key, before[vi].key);
+        let mut want_out = b.out.clone();
+        let mut want_inn = b.inn.clone();
+        let mut ok = true;
+        if accepted {
+            if directed {
+                if i == ui {
+                    want_out.push((kv, e));
+                }
+                if i == vi {
+                    want_inn.push((ku, e));
+                }
+                ok = a.out == want_out && a.inn == want_inn;
+            } else {
+                // undirected lists are reported as one sequence (outgoing half first): the new entry sits somewhere in it
+                let mut xs: Vec<Entry> = vec![];
+                if i == vi {
+                    xs.push((ku, e));
+                }
+                if i == ui {
+                    xs.push((kv, e));
+                }
+                ok = removable(&a.out, &b.out, &xs);
+            }
+        } else {
+            ok = a.out == b.out && a.inn == b.inn;
+        }
+        if !ok {
+            return Err(format!("node object #{i} (key {}) went from {}/{} to {}/{}; the call was made on object #{ui} (key {ku}) towards object #{vi} (key {kv}) with value {e} and was {}", b.key, crate::exec::fmt_list(&b.out), crate::exec::fmt_list(&b.inn), crate::exec::fmt_list(&a.out), crate::exec::fmt_list(&a.inn), if accepted { "accepted" } else { "refused" }));
+        }
+    }
+    Ok(())
+}
